@@ -31,6 +31,9 @@ static const struct sinput SINPUTS[] = {
         {"km104-dna", 2, 104, 0, 0, KALIGN_TYPE_UNDEFINED, -1, -1, -1, {0}},
         {"km130-prot", 2, 130, 0, 1, KALIGN_TYPE_UNDEFINED, -1, -1, -1, {0}},
         {"km230-dna", 2, 230, 0, 0, KALIGN_TYPE_DNA, -1, -1, -1, {0}},
+        /* shapes used by the Promela conformance check (models/): a 3-leaf chain and a 4-leaf caterpillar */
+        {"three-dna", 0, 3, 0, 0, KALIGN_TYPE_UNDEFINED, -1, -1, -1, {"ACGTACGT", "ACGTACG", "TTGACC"}},
+        {"cat4b-dna", 0, 4, 0, 0, KALIGN_TYPE_UNDEFINED, -1, -1, -1, {"ACGTACGTACGTAA", "ACGTACGTACGTA", "ACGTACGTCCAT", "GGTTGGTTGG"}},
 };
 
 static int sinput_count(void)
